@@ -46,6 +46,7 @@ def sandbox():
         "site..x/s.txt": "SECRET-sibling-dotdotx", "site_private/s.txt": "SECRET-sibling-private",
         "secret.txt": "SECRET-parent", "site/..x/inside.txt": "TOKEN-inside-dotdotx-dir", "site/é/ž.txt": "TOKEN-inside-utf8",
         "site/unreadable.txt": "TOKEN-unreadable", "site/data.zzq": "TOKEN-unknown-type", "site/sub/noext": "TOKEN-no-extension",
+        "site/big.bin": "TOKEN-big-" + "x" * 5000, "site/sub/huge.txt": "TOKEN-huge-" + "y" * 1200000,
     }
     for rel, content in files.items():
         p = os.path.join(base, rel)
@@ -79,7 +80,7 @@ def cleanup():
 
 SEGS = ["", ".", "..", "sub", "deep", "a.txt", "f.txt", "index.txt", "..x", "_private", "s.txt", "%2e%2e", "a\x00b", "é",
         "ž.txt", "secret.txt", ".hidden", "backup.txt~", "unreadable.txt", "empty", "site", "site..x", "site_private",
-        "sock", "data.zzq", "noext"]
+        "sock", "data.zzq", "noext", "big.bin", "huge.txt"]
 METHODS = ["GET", "HEAD", "POST", "DELETE", "PUT", "OPTIONS"]
 
 
